@@ -1102,7 +1102,12 @@ class Fxp():
     # behaviors
 
     def _overflow_action(self, new_val, val_min, val_max):
-        if np.any(new_val > val_max):
+        if self.n_word > 53 and np.asarray(new_val).dtype.kind == 'f':
+            # val_max is not a double beyond 53 bits (NumPy would compare with val_max + 1); doubles that large are integers
+            over = new_val >= val_max + 1
+        else:
+            over = new_val > val_max
+        if np.any(over):
             self.status['overflow'] = True
             self._run_callbacks('on_status_overflow')
         if np.any(new_val < val_min):
@@ -1114,6 +1119,10 @@ class Fxp():
                 val = np.clip(new_val, val_min, val_max)
             else:
                 val = utils.clip(new_val, val_min, val_max)
+                if 53 < self.n_word < 64 and isinstance(val, np.ndarray) and val.dtype.kind == 'f':
+                    # a float cannot hold the limits of words beyond 53 bits (val_max is rounded up to val_max + 1):
+                    # clip again as integers
+                    val = np.asarray(np.clip(val.astype(np.int64 if self.signed else np.uint64), val_min, val_max))
 
         elif self.config.overflow == 'wrap':
             val = utils.wrap(new_val, self.signed, self.n_word)
